@@ -769,3 +769,508 @@ Proof.
     + intros e0 H; inv H. cbn. lia.
     + intros _. apply akeys_aset_In. auto.
 Qed.
+
+(* ------------------------------------------------------------------ *)
+(* assembling: each piece of [step] preserves Inv *)
+
+Ltac solve_pc :=
+  cbn [pc_handles pc_waits np_handles np_waits];
+  solve
+  [ rewrite ?Nat.eqb_refl; reflexivity
+  | let k' := fresh "k'" in let Hne := fresh "Hne" in
+    intros k' Hne; cbn [pc_handles pc_waits np_handles np_waits];
+    repeat match goal with |- context [Nat.eqb ?x ?y] => destruct (Nat.eqb_spec x y); try congruence end; auto
+  | let k' := fresh "k'" in
+    intros k'; cbn [pc_handles pc_waits np_handles np_waits]; auto ].
+
+Lemma cs_ok s r s' o : cs s r = ROk s' o -> r = ROk s' o.
+Proof.
+  unfold cs, check_inv2_after. destruct (inv2_ok (s_ents s)); [|discriminate].
+  destruct r as [s1 o1| |]; try discriminate. destruct (inv2_ok (s_ents s1)); [auto|discriminate].
+Qed.
+
+Lemma do_key_try_inv c s a sh k s' o :
+  Inv s -> aget a (s_ops s) = Some (PKeyTry sh k) -> do_key_try c s a sh k = ROk s' o -> Inv s'.
+Proof.
+  intros HI Ha H. unfold do_key_try in H.
+  destruct (aget k (s_ents s)) as [e|] eqn:He; [|discriminate].
+  destruct (e_owner e) eqn:Eo.
+  - inv H. apply (pc_change_inv s a (PKeyTry sh k) (Some (PCleanup sh k))); auto; solve_pc.
+  - cbn [new_guard] in H. inv H.
+    apply (acquire_core s _ a (PKeyTry sh k) None k e); auto; try solve_pc.
+Qed.
+
+Lemma do_key_wait_inv c s a sh k s' o :
+  Inv s -> aget a (s_ops s) = Some (PKeyWait sh k) -> do_key_wait c s a sh k = ROk s' o -> Inv s'.
+Proof.
+  intros HI Ha H. unfold do_key_wait in H.
+  destruct (aget k (s_ents s)) as [e|] eqn:He; [|discriminate].
+  destruct (e_owner e) eqn:Eo.
+  - inv H. apply (enqueue_core s _ a (PKeyWait sh k) (Some (PQueued sh k)) k e); auto; try solve_pc. congruence.
+  - cbn [new_guard] in H. inv H.
+    apply (acquire_core s _ a (PKeyWait sh k) None k e); auto; try solve_pc.
+Qed.
+
+Lemma do_queued_inv c s a sh k s' o :
+  Inv s -> aget a (s_ops s) = Some (PQueued sh k) -> do_queued c s a sh k = ROk s' o -> Inv s'.
+Proof.
+  intros HI Ha H. unfold do_queued in H.
+  destruct (aget k (s_ents s)) as [e|] eqn:He; [|discriminate].
+  destruct (own_is_waiter (e_owner e) a) eqn:Eo; [|discriminate].
+  cbn [new_guard] in H. inv H.
+  apply (acquire_core s _ a (PQueued sh k) None k e); auto; try solve_pc.
+  right. split; [|solve_pc]. unfold own_is_waiter in Eo.
+  destruct (e_owner e) as [[|a']|]; try discriminate. apply Nat.eqb_eq in Eo. congruence.
+Qed.
+
+Lemma promote_if_lru_get c k k' ents : aget k' (promote_if_lru c k ents) = aget k' ents.
+Proof. unfold promote_if_lru. destruct (c_lru c); auto. apply aget_apromote. Qed.
+
+Lemma promote_if_lru_nodup c k (ents : list (key * entry)) : NoDup (akeys ents) -> NoDup (akeys (promote_if_lru c k ents)).
+Proof. unfold promote_if_lru. destruct (c_lru c); auto. apply NoDup_apromote. Qed.
+
+Lemma do_lookup_inv c s a sh k lim s' o :
+  Inv s -> aget a (s_ops s) = Some (PEnter sh k lim) -> do_lookup c s a sh k = ROk s' o -> Inv s'.
+Proof.
+  intros HI Ha H. unfold do_lookup in H.
+  destruct (aget k (s_ents s)) as [e|] eqn:He.
+  - inv H.
+    apply (gain_core s _ a (PEnter sh k lim) (Some (if sh_is_try sh then PKeyTry sh k else PKeyWait sh k)) k e
+             (promote_if_lru c k (s_ents s))); auto;
+      try (destruct (sh_is_try sh); solve_pc).
+    + apply promote_if_lru_nodup. apply (inv_nd_e _ HI).
+    + intros k'. apply promote_if_lru_get.
+  - cbn [new_guard] in H. inv H.
+    apply (insert_core s _ a (PEnter sh k lim) k); auto; solve_pc.
+Qed.
+
+Lemma do_cleanup_inv c s a sh k s' o :
+  Inv s -> aget a (s_ops s) = Some (PCleanup sh k) -> do_cleanup c s a k = ROk s' o -> Inv s'.
+Proof.
+  intros HI Ha H. unfold do_cleanup in H.
+  destruct (cleanup_ents (s_ents s) k) as [[ents|]|] eqn:Hc; try discriminate. inv H.
+  apply (cleanup_core s _ a (PCleanup sh k) None k ents); auto; try solve_pc.
+Qed.
+
+Lemma do_pcancel_inv c s a k ents :
+  Inv s -> aget a (s_ops s) = Some (PCancel k) -> cancel_ents c (s_ents s) a k = inl (Some ents) ->
+  Inv (fin (with_ents s ents) a).
+Proof.
+  intros HI Ha Hc.
+  apply (cancel_core c s _ a (PCancel k) None k ents); auto; try solve_pc.
+Qed.
+
+Lemma begin_unlock_inv c s g : Inv s -> Inv (begin_unlock c s g).
+Proof.
+  intros HI. unfold begin_unlock. destruct (c_lru c); auto.
+  destruct (aget g (s_guards s)) as [k|]; auto.
+  destruct (aget k (s_ents s)) as [e|] eqn:He; auto.
+  destruct (e_val e) as [[v st]|] eqn:Ev; auto.
+  apply set_val_inv; auto. discriminate.
+Qed.
+
+Lemma begin_unlock_ops c s g : s_ops (begin_unlock c s g) = s_ops s.
+Proof.
+  unfold begin_unlock. destruct (c_lru c); auto. destruct (aget g (s_guards s)) as [k|]; auto.
+  destruct (aget k (s_ents s)) as [e|]; auto. destruct (e_val e) as [[v st]|]; auto.
+Qed.
+
+Lemma unlock_cs_ops c s g s1 : unlock_cs c s g = inl (Some s1) -> s_ops s1 = s_ops s.
+Proof.
+  unfold unlock_cs. destruct (aget g (s_guards s)) as [k|]; [|discriminate].
+  destruct (aget k (s_ents s)) as [e|]; [|discriminate].
+  destruct (e_val e); [intros H; inv H; auto|].
+  destruct (Nat.eqb _ 0); intros H; inv H; auto.
+Qed.
+
+Lemma do_drops_inv c s a gs af s' o :
+  Inv s -> aget a (s_ops s) = Some (PDrops gs af) -> do_drops c s a gs af = ROk s' o -> Inv s'.
+Proof.
+  intros HI Ha H. unfold do_drops in H. destruct gs as [|g rest]; [discriminate|].
+  destruct (unlock_cs c s g) as [[s1|]|] eqn:Hu; try discriminate.
+  pose proof (unlock_cs_inv c s g s1 HI Hu) as HI1.
+  pose proof (unlock_cs_ops c s g s1 Hu) as Ho.
+  destruct rest as [|g' rest'].
+  - destruct af as [o1|sh k lim]; inv H.
+    + apply (pc_change_inv s1 a (PDrops [g] (ADone o)) None); auto; try congruence; solve_pc.
+    + apply (pc_change_inv s1 a (PDrops [g] (AReenter sh k lim)) (Some (PEnter sh k (Some lim)))); auto; try congruence; solve_pc.
+  - inv H. apply (pc_change_inv (begin_unlock c s1 g') a (PDrops (g :: g' :: rest') af) (Some (PDrops (g' :: rest') af))).
+    + apply begin_unlock_inv; auto.
+    + rewrite begin_unlock_ops. congruence.
+    + solve_pc.
+Qed.
+
+Lemma guard_repl_pos s g k e : Inv s -> aget g (s_guards s) = Some k -> aget k (s_ents s) = Some e -> 0 < e_repl e.
+Proof.
+  intros HI Hg He. rewrite (ki_r _ _ (inv_k _ HI k) e He). unfold handles.
+  assert (0 < gcount (s_guards s) k); [|lia]. apply gcount_pos. exists g. apply aget_In; auto.
+Qed.
+
+Lemma do_guard_op_inv c s g op s' o : Inv s -> do_guard_op c s g op = ROk s' o -> Inv s'.
+Proof.
+  intros HI H. unfold do_guard_op in H. destruct (negb (guard_live s g)); [discriminate|].
+  destruct (aget g (s_guards s)) as [k|] eqn:Hg; [|discriminate].
+  destruct (aget k (s_ents s)) as [e|] eqn:He; [|discriminate].
+  pose proof (guard_repl_pos s g k e HI Hg He) as Hpos.
+  destruct op; try (destruct (e_val e) as [[v0 st]|] eqn:Ev); inv H; auto;
+    apply set_val_inv; auto.
+Qed.
+
+Lemma do_start_inv c s a cl s' o : Inv s -> do_start c s a cl = ROk s' o -> Inv s'.
+Proof.
+  intros HI H. unfold do_start in H. destruct (amem a (s_ops s)) eqn:Hm; [discriminate|].
+  assert (Ha : aget a (s_ops s) = None).
+  { unfold amem in Hm. destruct (aget a (s_ops s)); [discriminate|auto]. }
+  destruct cl.
+  - destruct (lim_ok lim); inv H. apply start_inv; auto; try solve_pc.
+  - destruct (guard_live s g); inv H. apply start_inv.
+    + apply begin_unlock_inv; auto.
+    + rewrite begin_unlock_ops; auto.
+    + solve_pc.
+  - destruct (c_lru c && Z.leb 0 d)%bool; inv H. apply start_inv; auto; try solve_pc.
+  - inv H. apply start_inv; auto; try solve_pc.
+  - inv H. apply start_inv; auto; try solve_pc.
+  - inv H. apply start_inv; auto; try solve_pc.
+Qed.
+
+Lemma sub_handles_nil k : sub_handles [] k = 0. Proof. reflexivity. Qed.
+Lemma sub_waits_nil k : sub_waits [] k = false. Proof. reflexivity. Qed.
+
+Lemma do_cancel_inv c s a s' o : Inv s -> do_cancel c s a = ROk s' o -> Inv s'.
+Proof.
+  intros HI H. unfold do_cancel in H. destruct (aget a (s_ops s)) as [p|] eqn:Ha; [|discriminate].
+  destruct p; try discriminate.
+  - destruct (sh_is_async sh); inv H. apply (pc_change_inv s a (PInCb sh k lim offered) None); auto; try solve_pc.
+  - destruct (sh_is_async sh); inv H. apply (pc_change_inv s a (PQueued sh k) (Some (PCancel k))); auto; try solve_pc.
+  - destruct (existsb _ subs); [discriminate|]. destruct subs as [|x subs']; inv H.
+    + apply (pc_change_inv s a (PStream []) None); auto; try solve_pc.
+    + apply (pc_change_inv s a (PStream (x :: subs')) (Some (PStreamDrop (x :: subs')))); auto; try solve_pc.
+Qed.
+
+Lemma do_cbreturn_inv c s a r hold s' o : Inv s -> do_cbreturn c s a r hold = ROk s' o -> Inv s'.
+Proof.
+  intros HI H. unfold do_cbreturn in H. destruct (aget a (s_ops s)) as [p|] eqn:Ha; [|discriminate].
+  destruct p; try discriminate.
+  destruct hold.
+  - destruct offered as [|g rest]; [discriminate|].
+    destruct (all_live s (g :: rest) && nodup_nat (g :: rest))%bool; inv H.
+    apply (pc_change_inv (begin_unlock c s g) a (PInCb sh k lim (g :: rest)) (Some (PDrops (g :: rest) _))).
+    + apply begin_unlock_inv; auto.
+    + rewrite begin_unlock_ops; auto.
+    + solve_pc.
+  - destruct r; inv H.
+    + apply (pc_change_inv s a (PInCb sh k lim offered) (Some (PEnter sh k (Some lim)))); auto; try solve_pc.
+    + apply (pc_change_inv s a (PInCb sh k lim offered) None); auto; try solve_pc.
+    + apply (pc_change_inv s a (PInCb sh k lim offered) None); auto; try solve_pc.
+Qed.
+
+(* ------------------------------------------------------------------ *)
+(* multi-key critical sections *)
+
+Lemma iter_order_spec c s o order : NoDup (akeys (s_ents s)) -> iter_order c s o = Some order ->
+  NoDup order /\ (forall k, In k order <-> In k (akeys (s_ents s))) /\ length order = length (s_ents s).
+Proof.
+  intros Hnd. unfold iter_order. destruct (c_lru c).
+  - intros H; inv H. repeat split; auto; try tauto. unfold akeys. apply map_length.
+  - destruct (is_perm_of o (akeys (s_ents s))) eqn:E; [|discriminate]. intros H; inv H.
+    destruct (is_perm_of_spec _ _ Hnd E) as (H1 & H2 & H3). split; [auto|split; [apply H2|]].
+    etransitivity; [exact H3|]. unfold akeys. apply map_length.
+Qed.
+
+Lemma lock_keys_inv ks : forall s,
+  Inv s -> NoDup ks ->
+  (forall k, In k ks -> exists e, aget k (s_ents s) = Some e /\ e_owner e = None) ->
+  Inv (fst (lock_keys s ks)) /\ s_ops (fst (lock_keys s ks)) = s_ops s.
+Proof.
+  induction ks as [|k rest IH]; intros s HI Hnd Hall; cbn [lock_keys]; [auto|].
+  destruct (Hall k (or_introl eq_refl)) as (e & He & Ho). rewrite He.
+  cbn [new_guard].
+  match goal with |- context [lock_keys ?x rest] => set (s2 := x) end.
+  inversion Hnd as [|? ? Hnk Hnd']; subst.
+  assert (HI2 : Inv s2) by (apply (lock_one_inv s k e HI He Ho)).
+  assert (Hall2 : forall k', In k' rest -> exists e', aget k' (s_ents s2) = Some e' /\ e_owner e' = None).
+  { intros k' Hin. destruct (Hall k' (or_intror Hin)) as (e' & He' & Ho'). exists e'. split; auto.
+    unfold s2. cbn. rewrite aget_aset_neq; auto. intros ->. tauto. }
+  destruct (IH s2 HI2 Hnd' Hall2) as [H1 H2].
+  destruct (lock_keys s2 rest) as [s3 l] eqn:E3. cbn [fst] in *. split; auto.
+Qed.
+
+Lemma evict_scan_spec ents order : forall n ks,
+  evict_scan ents order n = inl (Some ks) ->
+  (forall k, In k ks -> In k order /\ exists e, aget k ents = Some e /\ e_owner e = None /\ e_val e <> None) /\
+  (NoDup order -> NoDup ks) /\ length ks <= n.
+Proof.
+  induction order as [|k rest IH]; intros n ks H.
+  - destruct n; cbn in H; inv H; (split; [intros k [] | split; [intros _; constructor | cbn; lia]]).
+  - destruct n as [|n']; cbn [evict_scan] in H.
+    + inv H. split; [intros k0 [] | split; [intros _; constructor | cbn; lia]].
+    + destruct (aget k ents) as [e|] eqn:He; [|discriminate].
+      assert (Skip : evict_scan ents rest (S n') = inl (Some ks) ->
+        (forall k0, In k0 ks -> In k0 (k :: rest) /\ exists e0, aget k0 ents = Some e0 /\ e_owner e0 = None /\ e_val e0 <> None) /\
+        (NoDup (k :: rest) -> NoDup ks) /\ length ks <= S n').
+      { intros Hs. destruct (IH _ _ Hs) as (H1 & H2 & H3). split; [|split; auto].
+        - intros k0 Hk. destruct (H1 k0 Hk) as [Hi He']. split; [right; auto|auto].
+        - intros Hnd. inversion Hnd; auto. }
+      destruct (e_owner e) as [o|] eqn:Eo.
+      * destruct (Nat.ltb 0 (e_repl e)); [auto|discriminate].
+      * destruct (e_val e) as [v|] eqn:Ev.
+        -- destruct (evict_scan ents rest n') as [[l|]|] eqn:Es; try discriminate. inv H.
+           destruct (IH _ _ Es) as (H1 & H2 & H3). split; [|split].
+           ++ intros k0 [<-|Hk].
+              ** split; [left; auto|]. exists e. repeat split; auto. congruence.
+              ** destruct (H1 k0 Hk). split; auto. right; auto.
+           ++ intros Hnd. inversion Hnd; subst. constructor; auto. intros Hin. apply H1 in Hin. tauto.
+           ++ cbn. lia.
+        -- destruct (Nat.ltb 0 (e_repl e)); [auto|discriminate].
+Qed.
+
+Lemma do_enter_inv c s a sh k lim o s' ob :
+  Inv s -> aget a (s_ops s) = Some (PEnter sh k lim) -> do_enter c s a sh k lim o = ROk s' ob -> Inv s'.
+Proof.
+  intros HI Ha H. unfold do_enter in H. destruct lim as [n|]; [|eapply do_lookup_inv; eauto].
+  destruct (length (s_ents s) - (n - 1)) as [|over] eqn:Eover; [eapply do_lookup_inv; eauto|].
+  destruct (iter_order c s o) as [order|] eqn:Eord; [|discriminate].
+  destruct (evict_scan (s_ents s) order (S over)) as [[ks|]|] eqn:Es; try discriminate.
+  destruct ks as [|k1 ks']; [eapply do_lookup_inv; eauto|].
+  destruct (iter_order_spec c s o order (inv_nd_e _ HI) Eord) as (Hnd & Hin & _).
+  destruct (evict_scan_spec _ _ _ _ Es) as (H1 & H2 & _).
+  destruct (lock_keys_inv (k1 :: ks') s HI (H2 Hnd)) as [HI2 Hops].
+  { intros k0 Hk. destruct (H1 k0 Hk) as (_ & e & He & Ho & _). eauto. }
+  destruct (lock_keys s (k1 :: ks')) as [s1 offered] eqn:El. cbn [fst] in *. inv H.
+  apply (pc_change_inv s1 a (PEnter sh k (Some n)) (Some (PInCb sh k n _))); auto; try congruence; solve_pc.
+Qed.
+
+Lemma do_scan_inv c s a cutoff o s' ob :
+  Inv s -> aget a (s_ops s) = Some (PScan cutoff) -> do_scan c s a cutoff o = ROk s' ob -> Inv s'.
+Proof.
+  intros HI Ha H. unfold do_scan in H.
+  destruct (iter_order c s o) as [order|] eqn:Eord; [|discriminate].
+  destruct (iter_order_spec c s o order (inv_nd_e _ HI) Eord) as (Hnd & Hin & _).
+  destruct cutoff as [ct|].
+  - destruct (lock_keys_inv (expired_keys (s_ents s) order ct) s HI) as [HI2 Hops].
+    { unfold expired_keys. apply NoDup_filter; auto. }
+    { intros k0 Hk. unfold expired_keys in Hk. apply filter_In in Hk as [_ Hk].
+      destruct (aget k0 (s_ents s)) as [e|]; [|discriminate]. exists e. split; auto.
+      destruct (e_owner e); [discriminate|auto]. }
+    destruct (lock_keys s (expired_keys (s_ents s) order ct)) as [s1 l] eqn:El. cbn [fst] in *. inv H.
+    apply (pc_change_inv s1 a (PScan (Some ct)) None); auto; try congruence; solve_pc.
+  - inv H. apply (pc_change_inv s a (PScan None) None); auto; solve_pc.
+Qed.
+
+(* ------------------------------------------------------------------ *)
+(* streams *)
+
+Lemma sub_handles_adel subs k k' :
+  sub_handles (adel k subs) k' = if Nat.eqb k' k then 0 else sub_handles subs k'.
+Proof. unfold sub_handles. rewrite aget_adel. destruct (Nat.eqb k' k); auto. Qed.
+
+Lemma sub_waits_adel subs k k' :
+  sub_waits (adel k subs) k' = if Nat.eqb k' k then false else sub_waits subs k'.
+Proof. unfold sub_waits. rewrite aget_adel. destruct (Nat.eqb k' k); auto. Qed.
+
+Lemma sub_handles_aset subs k st k' :
+  sub_handles (aset k st subs) k' =
+  if Nat.eqb k' k then match st with SInit | SQueued => 1 | _ => 0 end else sub_handles subs k'.
+Proof. unfold sub_handles. rewrite aget_aset. destruct (Nat.eqb k' k); auto. Qed.
+
+Lemma sub_waits_aset subs k st k' :
+  sub_waits (aset k st subs) k' =
+  if Nat.eqb k' k then match st with SQueued => true | _ => false end else sub_waits subs k'.
+Proof. unfold sub_waits. rewrite aget_aset. destruct (Nat.eqb k' k); auto. Qed.
+
+Ltac solve_sub :=
+  cbn [pc_handles pc_waits np_handles np_waits];
+  rewrite ?sub_handles_adel, ?sub_waits_adel, ?sub_handles_aset, ?sub_waits_aset, ?Nat.eqb_refl;
+  solve
+  [ reflexivity
+  | unfold sub_handles, sub_waits;
+    match goal with H : aget _ _ = _ |- _ => rewrite H end; reflexivity
+  | let k' := fresh "k'" in let Hne := fresh "Hne" in
+    intros k' Hne; cbn [pc_handles pc_waits np_handles np_waits];
+    rewrite ?sub_handles_adel, ?sub_waits_adel, ?sub_handles_aset, ?sub_waits_aset;
+    repeat match goal with |- context [Nat.eqb ?x ?y] => destruct (Nat.eqb_spec x y); try congruence end; auto ].
+
+Lemma do_sub_poll_inv c s a subs k s' o :
+  Inv s -> aget a (s_ops s) = Some (PStream subs) -> do_sub_poll c s a subs k = ROk s' o -> Inv s'.
+Proof.
+  intros HI Ha H. unfold do_sub_poll in H.
+  destruct (aget k subs) as [st|] eqn:Hs; [|discriminate].
+  destruct (aget k (s_ents s)) as [e|] eqn:He; [|discriminate].
+  assert (Acq : forall s' o,
+    (e_owner e = None /\ st = SInit \/ e_owner e = Some (OwnW a) /\ st = SQueued) ->
+    (let (s1, g) := new_guard s k in
+     let s2 := with_ents s1 (aset k (set_owner e (Some (OwnG g))) (s_ents s1)) in
+     match val_of e with
+     | Some v => ROk (set_pc s2 a (PStream (adel k subs))) (OItem g k v)
+     | None => ROk (set_pc s2 a (PStream (aset k (SUnlocking g) subs))) ONothing
+     end) = ROk s' o -> Inv s').
+  { intros s1 o1 Hcase Hr. cbn [new_guard] in Hr.
+    assert (Hown : e_owner e = None /\ pc_waits (PStream subs) k = false \/
+                   e_owner e = Some (OwnW a) /\ pc_waits (PStream subs) k = true).
+    { destruct Hcase as [[? ->]|[? ->]]; [left|right]; split; auto; cbn; unfold sub_waits; rewrite Hs; auto. }
+    assert (Hh : pc_handles (PStream subs) k = 1).
+    { cbn. unfold sub_handles. rewrite Hs. destruct Hcase as [[_ ->]|[_ ->]]; auto. }
+    destruct (val_of e); inv Hr.
+    - apply (acquire_core s _ a (PStream subs) (Some (PStream (adel k subs))) k e); auto; solve_sub.
+    - apply (acquire_core s _ a (PStream subs) (Some (PStream (aset k (SUnlocking (s_gid s)) subs))) k e); auto; solve_sub. }
+  destruct st.
+  - destruct (e_owner e) eqn:Eo.
+    + inv H. apply (enqueue_core s _ a (PStream subs) (Some (PStream (aset k SQueued subs))) k e); auto;
+        try solve_sub. congruence.
+    + eapply Acq; eauto.
+  - destruct (own_is_waiter (e_owner e) a) eqn:Eo; [|discriminate]. eapply Acq; eauto. right. split; auto.
+    unfold own_is_waiter in Eo. destruct (e_owner e) as [[|a']|]; try discriminate. apply Nat.eqb_eq in Eo. congruence.
+  - destruct (unlock_cs c s g) as [[s1|]|] eqn:Hu; try discriminate. inv H.
+    apply (pc_change_inv s1 a (PStream subs) (Some (PStream (adel k subs)))).
+    + eapply unlock_cs_inv; eauto.
+    + rewrite (unlock_cs_ops c s g s1 Hu). auto.
+    + intros k'. cbn [pc_handles pc_waits np_handles np_waits]. rewrite sub_handles_adel, sub_waits_adel.
+      destruct (Nat.eqb_spec k' k); auto. subst. unfold sub_handles, sub_waits. rewrite Hs. auto.
+Qed.
+
+Lemma adel_nil_aget {V} k k' (m : list (nat * V)) : adel k m = [] -> k' <> k -> aget k' m = None.
+Proof. intros H Hne. rewrite <- (aget_adel_neq k' k m Hne), H. reflexivity. Qed.
+
+Lemma do_sub_drop_inv c s a subs k s' o :
+  Inv s -> aget a (s_ops s) = Some (PStreamDrop subs) -> do_sub_drop c s a subs k = ROk s' o -> Inv s'.
+Proof.
+  intros HI Ha H. unfold do_sub_drop in H.
+  destruct (aget k subs) as [st|] eqn:Hs; [|discriminate].
+  assert (Np : forall ents, exists np,
+     (match adel k subs with
+      | [] => ROk (fin (with_ents s ents) a) OCancelled
+      | _ => ROk (set_pc (with_ents s ents) a (PStreamDrop (adel k subs))) ONothing
+      end = ROk s' o -> s' = upd_ops (with_ents s ents) a np) /\
+     np_handles np k = 0 /\ np_waits np k = false /\
+     (forall k', k' <> k -> pc_handles (PStreamDrop subs) k' = np_handles np k' /\
+                            pc_waits (PStreamDrop subs) k' = np_waits np k')).
+  { intros ents. destruct (adel k subs) as [|x rest] eqn:Ea.
+    - exists None. split; [intros Hr; inv Hr; auto|]. repeat split; auto;
+        cbn; unfold sub_handles, sub_waits; rewrite (adel_nil_aget k k' subs Ea); auto.
+    - exists (Some (PStreamDrop (x :: rest))). split; [intros Hr; inv Hr; auto|]. rewrite <- Ea.
+      repeat split; try solve_sub;
+        cbn [pc_handles pc_waits np_handles np_waits]; rewrite ?sub_handles_adel, ?sub_waits_adel;
+        destruct (Nat.eqb_spec k' k); congruence || auto. }
+  destruct st; try discriminate.
+  - destruct (cleanup_ents (s_ents s) k) as [[ents|]|] eqn:Hc; try discriminate.
+    destruct (Np ents) as (np & Hs' & Hn1 & Hn2 & Hoth). rewrite (Hs' H).
+    apply (cleanup_core s _ a (PStreamDrop subs) np k ents); auto; solve_sub.
+  - destruct (cancel_ents c (s_ents s) a k) as [[ents|]|] eqn:Hc; try discriminate.
+    destruct (Np ents) as (np & Hs' & Hn1 & Hn2 & Hoth). rewrite (Hs' H).
+    apply (cancel_core c s _ a (PStreamDrop subs) np k ents); auto; solve_sub.
+Qed.
+
+Definition init_subs (l : list key) : list (key * sub) := map (fun k => (k, SInit)) l.
+
+Lemma aget_init_subs k l : aget k (init_subs l) = if mem_nat k l then Some SInit else None.
+Proof.
+  induction l as [|x t IH]; cbn; auto. destruct (Nat.eqb k x); cbn; auto.
+Qed.
+
+Lemma clone_all_inv a l : forall s subs,
+  Inv s -> aget a (s_ops s) = Some (PStream subs) -> NoDup l ->
+  (forall k, In k l -> In k (akeys (s_ents s)) /\ aget k subs = None) ->
+  Inv (set_pc (with_ents s (clone_all (s_ents s) l)) a (PStream (subs ++ init_subs l))).
+Proof.
+  induction l as [|k rest IH]; intros s subs HI Ha Hnd Hall.
+  - cbn. rewrite app_nil_r.
+    replace (set_pc (with_ents s (s_ents s)) a (PStream subs)) with (upd_ops s a (Some (PStream subs))).
+    + apply (pc_change_inv s a (PStream subs)); auto.
+    + destruct s; reflexivity.
+  - inversion Hnd as [|? ? Hnk Hnd']; subst.
+    destruct (Hall k (or_introl eq_refl)) as [Hk Hsk]. apply keys_aget in Hk as [e He].
+    cbn [clone_all]. rewrite He.
+    set (s1 := upd_ops (with_ents s (aset k (set_repl e (S (e_repl e))) (s_ents s))) a
+                       (Some (PStream (subs ++ [(k, SInit)])))).
+    assert (HI1 : Inv s1).
+    { apply (gain_core s _ a (PStream subs) (Some (PStream (subs ++ [(k, SInit)]))) k e (s_ents s)); auto;
+        try apply (inv_nd_e _ HI);
+        cbn [pc_handles pc_waits np_handles np_waits]; unfold sub_handles, sub_waits; rewrite ?aget_app, ?Hsk; cbn;
+        rewrite ?Nat.eqb_refl; auto.
+      intros k' Hne. rewrite !aget_app. destruct (aget k' subs); auto. cbn.
+      destruct (Nat.eqb_spec k' k); [congruence|auto]. }
+    assert (Ha1 : aget a (s_ops s1) = Some (PStream (subs ++ [(k, SInit)]))) by (cbn; apply aget_aset_eq).
+    assert (Hall1 : forall k', In k' rest -> In k' (akeys (s_ents s1)) /\ aget k' (subs ++ [(k, SInit)]) = None).
+    { intros k' Hin. destruct (Hall k' (or_intror Hin)) as [H1 H2]. split.
+      - cbn. apply akeys_aset_In. auto.
+      - rewrite aget_app, H2. cbn. destruct (Nat.eqb_spec k' k); [subst; tauto|auto]. }
+    specialize (IH s1 _ HI1 Ha1 Hnd' Hall1).
+    replace (set_pc (with_ents s (clone_all (aset k (set_repl e (S (e_repl e))) (s_ents s)) rest)) a
+                    (PStream (subs ++ init_subs (k :: rest))))
+      with (set_pc (with_ents s1 (clone_all (s_ents s1) rest)) a (PStream ((subs ++ [(k, SInit)]) ++ init_subs rest))); auto.
+    unfold s1, set_pc, with_ents, with_ops, upd_ops. cbn. rewrite aset_aset, <- app_assoc. reflexivity.
+Qed.
+
+Lemma do_stream_enter_inv c s a o s' ob :
+  Inv s -> aget a (s_ops s) = Some PStreamEnter -> do_stream_enter c s a o = ROk s' ob -> Inv s'.
+Proof.
+  intros HI Ha H. unfold do_stream_enter in H.
+  destruct (iter_order c s o) as [order|] eqn:Eord; [|discriminate]. inv H.
+  destruct (iter_order_spec c s o order (inv_nd_e _ HI) Eord) as (Hnd & Hin & _).
+  set (s0 := upd_ops s a (Some (PStream []))).
+  assert (HI0 : Inv s0) by (apply (pc_change_inv s a PStreamEnter); auto; solve_pc).
+  assert (Ha0 : aget a (s_ops s0) = Some (PStream [])) by (cbn; apply aget_aset_eq).
+  pose proof (clone_all_inv a order s0 [] HI0 Ha0 Hnd) as Hc.
+  replace (set_pc (with_ents s (clone_all (s_ents s) order)) a (PStream (map (fun k => (k, SInit)) order)))
+    with (set_pc (with_ents s0 (clone_all (s_ents s0) order)) a (PStream ([] ++ init_subs order))).
+  - apply Hc. intros k Hk. split; auto. apply Hin; auto.
+  - unfold s0, set_pc, with_ents, with_ops, upd_ops. cbn. rewrite aset_aset. reflexivity.
+Qed.
+
+Lemma do_consume_inv c s o s' ob : Inv s -> do_consume c s o = ROk s' ob -> Inv s'.
+Proof.
+  intros HI H. unfold do_consume in H.
+  destruct (s_ops s) eqn:Eo; [|discriminate]. destruct (s_guards s) eqn:Eg; [|discriminate].
+  destruct (negb (inv2_ok (s_ents s))); [discriminate|].
+  destruct (iter_order c s o); [|discriminate].
+  destruct (consume_list (s_ents s) l); [|discriminate]. inv H.
+  destruct HI as [nde ndg ndo hgid hk].
+  constructor; cbn; auto; try constructor.
+  - intros e; discriminate.
+  - unfold guard_on. cbn. rewrite Eg. intros g. split; [discriminate|intros (? & ? & _); discriminate].
+  - unfold waits_on. cbn. rewrite Eo. intros a. split; intros (? & ? & _); discriminate.
+  - discriminate.
+  - discriminate.
+  - unfold handles, gcount. cbn. rewrite Eg, Eo. cbn. lia.
+Qed.
+
+(* ------------------------------------------------------------------ *)
+(* main preservation theorem *)
+
+Theorem step_inv c s l s' o : Inv s -> step c s l = ROk s' o -> Inv s'.
+Proof.
+  intros HI H. destruct l; cbn [step] in H.
+  - eapply do_start_inv; eauto.
+  - unfold do_resume in H. destruct (aget a (s_ops s)) as [p|] eqn:Ha; [|discriminate].
+    destruct p; try discriminate; try (apply cs_ok in H).
+    + eapply do_enter_inv; eauto.
+    + eapply do_key_try_inv; eauto.
+    + eapply do_key_wait_inv; eauto.
+    + eapply do_queued_inv; eauto.
+    + eapply do_cleanup_inv; eauto.
+    + destruct (cancel_ents c (s_ents s) a k) as [[ents|]|] eqn:Hc; try discriminate. inv H.
+      eapply do_pcancel_inv; eauto.
+    + eapply do_drops_inv; eauto.
+    + eapply do_scan_inv; eauto.
+    + eapply do_stream_enter_inv; eauto.
+    + inv H. apply (pc_change_inv s a PCount None); auto; solve_pc.
+    + destruct (iter_order c s o0); [|discriminate]. inv H. apply (pc_change_inv s a PKeys None); auto; solve_pc.
+  - unfold do_sub in H. destruct (aget a (s_ops s)) as [p|] eqn:Ha; [|discriminate].
+    destruct p; try discriminate.
+    + destruct (aget k subs) as [[| |g]|]; try (apply cs_ok in H); eapply do_sub_poll_inv; eauto.
+    + apply cs_ok in H. eapply do_sub_drop_inv; eauto.
+  - unfold do_pollend in H. destruct (aget a (s_ops s)) as [[]|]; try discriminate.
+    destruct subs; inv H; auto.
+  - eapply do_cancel_inv; eauto.
+  - eapply do_guard_op_inv; eauto.
+  - eapply do_cbreturn_inv; eauto.
+  - destruct (Z.leb 0 d); inv H. destruct HI as [nde ndg ndo hgid hk]. constructor; auto.
+    intros k. apply (KInv_same s); auto. apply same_at_clock.
+  - eapply do_consume_inv; eauto.
+Qed.
+
+Theorem steps_inv c s ls s' : Inv s -> steps c s ls s' -> Inv s'.
+Proof. intros HI H. induction H; auto. apply IHsteps. eapply step_inv; eauto. Qed.
+
+Theorem reachable_inv c s : reachable c s -> Inv s.
+Proof. intros [ls H]. eapply steps_inv; eauto. apply Inv_init. Qed.
